@@ -196,6 +196,44 @@ fn generate(seed: u64, tier: Tier, em: &mut Emitter) {
         let mode = if rng.chance(1, 3) { Mode::Seq } else { Mode::Par(parts) };
         emit(em, &src, &steps, mode, &["value_only_block"]);
     }
+    // debug taps on partitions holding MORE THAN 10 elements, debug_sample sizes 0,1,10,11,>len;
+    // the user-written custom operator
+    let full = tier != Tier::Quick;
+    let mut t = 0usize;
+    for n in [11usize, 25, 40] {
+        for k in [0usize, 1, 2, 3, 4, 13, 14, 3 + n + 5] {
+            for (mi, mode) in [Mode::Seq, Mode::Par(1), Mode::Par(2), Mode::Par(3)].into_iter().enumerate() {
+                t += 1;
+                if !full && (t + mi) % 2 == 0 {
+                    continue;
+                }
+                let u = Src::Vec(Shape::U, ints(n, &mut rng));
+                emit(em, &u, &[Step::Map(EFun::Add(1)), Step::Debug(k), Step::CustomMap(EFun::Add(1))], mode,
+                     &["sweep", "debug_tap"]);
+                if full || t % 2 == 0 {
+                    let kv = Src::Vec(Shape::KV, pattern_kv(PATTERNS[t % PATTERNS.len()], n, &mut rng));
+                    emit(em, &kv, &[Step::Debug(k), Step::MapValues(EFun::Add(1)), Step::Debug((k + 1) % 4)], mode,
+                         &["sweep", "debug_tap"]);
+                }
+            }
+        }
+    }
+    // more than 64 consecutive stateless steps (one fused node of > 64 operators)
+    for chain in long_chains(full) {
+        for mode in [Mode::Seq, Mode::Par(3)] {
+            let u = Src::Vec(Shape::U, ints(9, &mut rng));
+            emit(em, &u, &chain, mode, &["sweep", "long_chain"]);
+        }
+    }
+    // fail-fast must report the FIRST failing element: several distinct failing elements
+    for n in [5usize, 12, 30] {
+        for (m, r) in [(3i64, 0i64), (4, 1), (2, 1), (7, 6)] {
+            let u = Src::Vec(Shape::U, (0..n as i64).map(|i| Val::Int(i * 5 % 31)).collect());
+            let steps = vec![Step::Map(EFun::Add(1)), Step::TryMap(EFun::Mul(2), PFun::Not(Box::new(PFun::ModEq(m, r))))];
+            emit(em, &u, &steps, Mode::Seq, &["sweep", "try_map"]);
+            emit_try(em, &u, &steps, &["sweep", "try_map"]);
+        }
+    }
     // branching programs: targeted (the base ends in a filter / map) and random
     for (i, (shape, pre, a, b)) in targeted_branches().into_iter().enumerate() {
         for (n, parts) in [(7usize, None), (9, Some(3)), (2, Some(5))] {
@@ -213,6 +251,7 @@ fn generate(seed: u64, tier: Tier, em: &mut Emitter) {
         let parts = gen_parts(&mut rng, src.len());
         let mut o = GenOpts::elementwise();
         o.side_inputs = true;
+        o.taps = true;
         o.reorder_class = rng.chance(1, 10);
         let Some((pre, a, b)) = gen_branch(&mut rng, &src, &o, parts) else { continue };
         let mode = if rng.chance(1, 3) { Mode::Seq } else { Mode::Par(parts) };
@@ -221,7 +260,7 @@ fn generate(seed: u64, tier: Tier, em: &mut Emitter) {
     }
     // seeded random well-typed element-wise programs
     let mut rng = seed_mix(seed, 0xC02_0002);
-    let count = if tier == Tier::Quick { 850 } else { 9000 };
+    let count = if tier == Tier::Quick { 800 } else { 9000 };
     for _ in 0..count {
         let n = if rng.chance(1, 3) { rng.below(4) as usize } else { rng.below(25) as usize };
         let src = gen_src(&mut rng, n, true, true);
@@ -231,6 +270,7 @@ fn generate(seed: u64, tier: Tier, em: &mut Emitter) {
         o.reorder_class = rng.chance(1, 7);
         o.header = mode == Mode::Seq;
         o.side_inputs = true;
+        o.taps = true;
         let nsteps = rng.below(13) as usize;
         let (mut steps, sim) = gen_program(&mut rng, &src, &o, nsteps, parts);
         if sim.shape == Shape::U && rng.chance(1, 4) {
